@@ -957,8 +957,25 @@ func unescapeHTML(i string) string {
 	return htmlUnescaper.Replace(i)
 }
 
+// eofLaterReader never delivers io.EOF together with data: bufio.Scanner accepts a final line that fills its
+// buffer when the end of the stream is already known and rejects it otherwise
+type eofLaterReader struct {
+	r   io.Reader
+	eof bool
+}
+
+func (r *eofLaterReader) Read(p []byte) (n int, err error) {
+	if r.eof {
+		return 0, io.EOF
+	}
+	if n, err = r.r.Read(p); n > 0 && err == io.EOF {
+		r.eof, err = true, nil
+	}
+	return
+}
+
 func newScanner(i io.Reader) *bufio.Scanner {
-	var scanner = bufio.NewScanner(i)
+	var scanner = bufio.NewScanner(&eofLaterReader{r: i})
 	scanner.Split(func(data []byte, atEOF bool) (advance int, token []byte, err error) {
 		if atEOF && len(data) == 0 {
 			return 0, nil, nil
